@@ -181,9 +181,33 @@ def sim_case(rng, profile, kind, tier):
             c["queue"] = max(15000, c["cap"] * c["rtt"] // 1000 * rng.choice([1, 2]))
             c["replayMax"] = 700 if not big else 2500
     elif kind == "clean":
+        # loss-free path of fixed capacity, never app-limited: 32 s simulated, i.e. through the first min_rtt expiry (10 s without
+        # a new minimum), the PROBE_RTT episode it causes and 20 s beyond; every 5 s window from 12 s on must deliver >= 50% of capacity
         c["clean"] = True
+        c["dur"] = 32000
+        c["thrFrom"], c["thrWin"], c["thrMinPm"] = 12000, 5000, 500
         c["mtu"] = [[rng.randrange(500, 6000), 1452]] if rng.random() < 0.5 else []
         c["queue"] = max(40000, 2 * bdp)
+    elif kind == "fast-idle":
+        # very fast path (1..10 GB/s, 1-2 ms), a short ramp to full rate, then application idle gaps of 5..30 s with short sending
+        # phases in between: pacer rate x time since the last packet is between 0.5 and 32 times 2^63 at the resumes (the int64 product
+        # in Pacer.Budget wraps, to either sign); verdict at every resume: the pacer's announced send time has budget for a datagram
+        c["cap"] = rng.choice([1000, 1250, 2000, 2500, 4000, 5000, 8000, 10000]) * 1000000
+        c["rtt"] = 1 if c["cap"] > 4000000000 else rng.choice([1, 2])
+        c["aggUs"] = rng.choice([100, 200, 250])
+        c["gap"], c["nonrtx"] = rng.choice([0, 2]), rng.choice([0, 2])
+        bdp = c["cap"] * c["rtt"] // 1000
+        c["queue"] = max(40000, bdp * 2)
+        ramp = max(15, min(300, 60000 * 1200 * 1000 // c["cap"]))      # ms; 60k..125k packets (>= 12 round trips)
+        burst = max(3, ramp // 8)
+        t, idle = ramp, []
+        for _ in range(rng.choice([3, 4, 5])):
+            g = rng.choice([5000, 7500, 9000, 11000, 13000, 17000, 23000, 30000, rng.randrange(5000, 30001)])
+            idle.append([t, t + g])
+            t += g + burst
+        c["idle"] = idle
+        c["dur"] = t
+        c["dumpMax"], c["traceMax"], c["replayMax"] = 24, 30, 80
     elif kind == "lossy":
         c["loss"] = rng.choice([5, 20, 50])
         c["burstEv"], c["burstLen"] = rng.choice([(0, 0), (2500, 80), (4000, 250)])
@@ -281,6 +305,9 @@ def gen(rng, tier):
     for prof, kind in zip(rng.sample(PROFILES, 2), ["smallmax-bdp", "smallmax"]):
         cases.append(sim_case(rng, prof, kind, tier))
     cases.append(sim_case(rng, rng.choice(PROFILES), "fat", tier))
+    # "does not deadlock" at the pacer: very fast paths with long application idle gaps, every profile
+    for prof in PROFILES:
+        cases.append(sim_case(rng, prof, "fast-idle", tier))
     # layer 3: short histories replayed whole by the full model, every profile
     far = rng.choice(PROFILES)
     for prof in PROFILES:
@@ -298,6 +325,8 @@ def gen(rng, tier):
             cases.append(sim_case(rng, rng.choice(PROFILES), rng.choice(["slow-lo", "slow-lo", "slow-mid", "slow-hi", "smallmax", "smallmax-bdp"]), tier))
         for _ in range(3):
             cases.append(sim_case(rng, rng.choice(PROFILES), "fat", tier))
+        for _ in range(12):
+            cases.append(sim_case(rng, rng.choice(PROFILES), "fast-idle", tier))
     for _ in range(24 * scale):
         cases.append(gen_ring(rng, rng.choice([40, 120, 200])))
     for _ in range(36 * scale):
@@ -390,7 +419,11 @@ def klass(c, o):
         return "sim:%s:%s:modes=%s:rec=%s%s%s" % (c["sim"]["kind"], c["sim"]["profile"], "".join(map(str, st.get("modes", []))),
                                                 "".join(map(str, st.get("recovery", []))),
                                                 ":floor-binding" if st.get("floorEvents") else "",
-                                                ":cap-binding" if st.get("capEvents") else "")
+                                                ":cap-binding" if st.get("capEvents") else "") + (
+            (":resumes=%d:wrapped-negative=%d:wrapped-positive=%d" % (
+                len(st.get("idleResumes") or []), sum(1 for r in st.get("idleResumes") or [] if r[2] % 2 == 1),
+                sum(1 for r in st.get("idleResumes") or [] if r[2] >= 2 and r[2] % 2 == 0))) if c["sim"]["kind"] == "fast-idle" else "") + (
+            (":windows>=%d%%" % int(100 * min(st["windowRatios"])) if st.get("windowRatios") else ""))
     return k
 
 
@@ -439,7 +472,13 @@ RULE = ("seeded generator. Layers 2-3: a discrete-event bottleneck simulator ins
         "x 80..150 ms) with NewBbrSender's real maximum: gain x BDP above the maximum window after STARTUP) "
         "drives the real bbrSender following quic-go's call discipline; after EVERY event the "
         "harness checks on the implementation: no panic, 4*mds <= GetCongestionWindow <= max, bandwidthForPacer >= 65536, EntrySlotsUsed "
-        "<= lastSent-leastUnacked+1, CanSend below 4*mds, pacer wake-up has budget, generated trace is quic_consistent; a sample of events "
+        "<= lastSent-leastUnacked+1, CanSend below 4*mds, the pacer has budget for a datagram at the time TimeUntilSend announces (at once when that time is zero or past), "
+        "PROBE_RTT is not re-entered within minRttExpiry (10 s) of leaving it and at most twice in any 10 s (theorem C12_probe_rtt_spacing), generated trace is quic_consistent; "
+        "the loss-free fixed-capacity runs (one per profile, 0.6..2.5 MB/s x 20..150 ms, 32 s simulated: through the first min_rtt expiry after 10 s, its PROBE_RTT episode and 20 s beyond) "
+        "must deliver >= 50% of capacity in EVERY 5 s window from 12 s on; very fast paths with application idle gaps (kind fast-idle, one per profile: 1..10 GB/s x 1-2 ms, a 15..72 ms ramp, "
+        "then 3-5 idle gaps of 5..30 s with millisecond sending phases between them, so that pacer rate x time since the last packet is 0.5..100 x 2^63 at the resumes - the int64 product of "
+        "Pacer.Budget not wrapped, wrapped negative, wrapped back to non-negative; acks on a 100-250 us grid); the long-run clauses (PROBE_RTT spacing, throughput windows) do not end the run, "
+        "the replay lists the first violation of each; a sample of events "
         "(mode/recovery/full-bandwidth changes, losses, MTU raises, events at which a clamp is binding - pacing rate below twice the "
         "floor, window at the maximum or full-bandwidth target above it -, the event failing the verdict, + random; each class with its "
         "own share of the budget) is dumped (fields before/after + oracle values + pacingRate field in bits/s) and recomputed by the "
@@ -461,6 +500,12 @@ RULE = ("seeded generator. Layers 2-3: a discrete-event bottleneck simulator ins
         "Inputs read back: rttStats.MinRTT() at the call and the random gain-cycle offset. "
         "Non-trivial = at least 10 steps. Distinct = distinct JSON case.")
 ASSUMPTIONS = [
+    "'does not deadlock' at the pacer is delimited as follows: theorems for every call time with bandwidth x elapsed < 2^63 and for products wrapped to <= -(budgetAtLastSent+1)*10^9 "
+    "(C12_pacer_late_calls); the harness verdict ('at the time TimeUntilSend announces, or at once if it is past, the budget covers a datagram') is evaluated at EVERY resume the generator "
+    "produces, including rate x gap >= 2^63 (the range C11's quantifier excludes; C12's text does not) up to ~100 x 2^63; in the sub-ranges where the code's budget is whatever a wrapped "
+    "product leaves (non-negative wrap, or negative but above -(budgetAtLastSent+1)*10^9) the current code has a budget below one datagram for about 10^12 of every 2^64 product values "
+    "(probability ~1e-7 per resume, self-healing within one datagram time): such a resume would be reported as a violation and is a genuine instant of the defect class",
+    "throughput clause: simulator verdict, not a theorem; 'loss-free' = no random or burst loss (the bottleneck queue of 2 BDP can still tail-drop during STARTUP)",
     "quic-go call discipline (read from sent_packet_handler.go, not modelled): OnPacketSent for every packet with strictly increasing "
     "packet numbers (skips allowed), OnCongestionEventEx only with acked+lost non-empty, acked ascending, numbers previously sent",
     "QUIC packet numbers are < 2^62 and ring lengths < 2^31, so the int64 index arithmetic of the queue cannot wrap (model uses Z there)",
@@ -489,7 +534,10 @@ LEVEL_TEXT = ("Machine-checked Coq theorems over a hand-written Gallina model of
               "full bandwidth, mode transitions obey the stated entry / exit conditions, every step refines a step of the layer 2 skeleton "
               "(so the window and pacing-floor theorems hold with no oracle), CanSend below 4 datagrams and the pacer's wake-up time has "
               "budget for the sender's datagram size. Tied by whole-history replay with the full state compared after every call. "
-              "Throughput on a loss-free path: supporting evidence only (simulator), no theorem.")
+              "Long-run clauses: at the level of whole OnCongestionEventEx calls the min-RTT stamp only moves to the time of the event, PROBE_RTT is entered only with a stamp older than "
+              "minRttExpiry and entering / leaving refresh it (C12_probe_rtt_spacing: PROBE_RTT cannot be re-entered within 10 s of leaving it); the pacer called late (C12_pacer_late_calls): "
+              "no shrinking budget while bandwidth x elapsed < 2^63, a full burst when the product wrapped negative; clamping a negative budget to zero is refuted "
+              "(C12_pacer_negative_budget_must_not_clamp_to_zero). Throughput on a loss-free path: no theorem; harness verdict on the simulator (every 5 s window >= 50% of capacity).")
 LEVEL_NOTE = ("Trusted: Coq kernel + vm_compute; hand-written model (tie = sampled differential testing + regenerated ParamsC12); python/Go glue; the "
               "simulator's rendering of quic-go's call discipline. No axioms beyond Coq's float / int63 primitives in the layer 3 theorems. "
               "Not proved: numeric properties of the float results (bandwidth estimate accuracy, gain x BDP bounds), recovery-state range, "
@@ -569,8 +617,9 @@ def run(ctx):
                 replay_missing[0], outs[replay_missing[0]].get("replayOver", "no replay output"))
         ctx.say("whole-trace replays: %d histories, %d calls replayed by the full model" % (n_replays, n_replay_events))
     hist, nontriv = {}, set()
-    supporting = {"label": "SUPPORTING EVIDENCE ONLY - no theorem covers throughput/convergence; loss-free, never app-limited "
-                           "simulated bottleneck; ratio = bytes delivered after the first 2 s / (capacity * time)",
+    supporting = {"label": "no theorem covers throughput/convergence; loss-free, never app-limited simulated bottleneck of fixed capacity, 32 s "
+                           "per profile; ratio = bytes delivered after the first 2 s / (capacity * time); window_ratios = the same per 5 s "
+                           "window from 12 s on (after the first min_rtt expiry and its PROBE_RTT episode): each must be >= 0.5 (harness verdict)",
                   "threshold": 0.5, "runs": []}
     for c, o in zip(cases, outs):
         k = klass(c, o)
@@ -583,7 +632,8 @@ def run(ctx):
         if c["k"] == "sim" and c["sim"].get("clean") and o.get("stats"):
             r = o["stats"]["throughputRatio"]
             supporting["runs"].append({"profile": c["sim"]["profile"], "capacity_Bps": c["sim"]["cap"], "rtt_ms": c["sim"]["rtt"],
-                                       "duration_ms": c["sim"]["dur"], "throughput_ratio": round(r, 4)})
+                                       "duration_ms": c["sim"]["dur"], "throughput_ratio": round(r, 4),
+                                       "window_ratios": o["stats"].get("windowRatios"), "probe_rtt_entries_ms": o["stats"].get("probeRttEntriesMs")})
             if r < 0.5 and o.get("ok") is not False:
                 violations.append({"what": "sim: regression threshold (supporting evidence, no theorem): profile %s delivers %.1f%% of the "
                                            "bottleneck capacity on a loss-free path after %d ms" % (c["sim"]["profile"], 100 * r, c["sim"]["dur"]),
@@ -624,6 +674,19 @@ def run(ctx):
                                                         len((o.get("stats") or {}).get("modes", [])) > 1)}
     if outs and not impl_bad and not (cov["sims_leaving_startup_with_floor_binding"] and cov["sims_leaving_startup_with_cap_binding"]):
         ctx.say("WARNING: generator did not reach a post-STARTUP state with the pacing floor / the window cap binding")
+    fi = [r for c, o in zip(cases, outs) if c["k"] == "sim" and c["sim"]["kind"] == "fast-idle"
+          for r in ((o.get("stats") or {}).get("idleResumes") or [])]
+    cov["pacer_resumes_after_idle"] = len(fi)
+    cov["pacer_resumes_product_wrapped_negative"] = sum(1 for r in fi if r[2] % 2 == 1)
+    cov["pacer_resumes_product_wrapped_nonnegative"] = sum(1 for r in fi if r[2] >= 2 and r[2] % 2 == 0)
+    cov["pacer_resumes_fastest_rate_Bps"] = max([r[1] for r in fi] or [0])
+    cov["clean_runs_with_probe_rtt_before_last_window"] = sum(
+        1 for c, o in zip(cases, outs) if c["k"] == "sim" and c["sim"].get("clean") and
+        any(t < c["sim"]["dur"] - 5000 for t in ((o.get("stats") or {}).get("probeRttEntriesMs") or [])))
+    if outs and not impl_bad and not cov["pacer_resumes_product_wrapped_negative"]:
+        ctx.say("WARNING: no resume after an idle gap had pacer rate x elapsed in the negative half of the int64 wrap")
+    if outs and not impl_bad and not cov["clean_runs_with_probe_rtt_before_last_window"]:
+        ctx.say("WARNING: no loss-free fixed-capacity run went through a PROBE_RTT episode before its last throughput window")
     ctx.say("input classes: " + json.dumps(hist, sort_keys=True))
     return common.finish(ctx, pinfo, cov, violations, ASSUMPTIONS, trusted_extra=TRUSTED)
 
